@@ -8,7 +8,7 @@ tree="$1"; tier="$2"; shift 2
 ev=/dev/shm/mut-evidence-$$; mkdir -p "$ev"
 rc=0
 for id in "$@"; do
-  out=$(unshare -m bash -c "mount --bind '$tree' /repo && cd /verif && VERIF_TARGET_SUFFIX=-mut VERIF_EVIDENCE_DIR=$ev ./check $id --tier $tier" 2>&1)
+  out=$(unshare -m bash -c "mount --bind '$tree' /repo && cd /verif && VERIF_TARGET_SUFFIX=${MUT_SUFFIX:--mut} VERIF_EVIDENCE_DIR=$ev ./check $id --tier $tier" 2>&1)
   st=$?
   echo "== $id: exit $st"
   echo "$out" | grep -E "^VIOLATION|^KNOWN-FINDING|MACHINERY|^  key:|^C[0-9]+ (quick|thorough):" | head -8
